@@ -229,6 +229,53 @@ func portsOf(info *types.Info, fd *ast.FuncDecl, form string, siblings map[strin
 					walk(x.Body.List, cond)
 					continue
 				}
+				// a loop over a package-level table of records with constant string fields is unrolled
+				if tid, ok := ast.Unparen(x.X).(*ast.Ident); ok {
+					if lit, ok := c18Tables[info.ObjectOf(tid)]; ok {
+						if vid, ok := x.Value.(*ast.Ident); ok && vid.Name != "_" {
+							done := true
+							var substs []map[string]string
+							for _, el := range lit.Elts {
+								cl, ok := el.(*ast.CompositeLit)
+								if !ok {
+									done = false
+									break
+								}
+								st, ok := info.TypeOf(cl).Underlying().(*types.Struct)
+								if !ok {
+									done = false
+									break
+								}
+								m := map[string]string{}
+								for fi, fe := range cl.Elts {
+									name := ""
+									val := fe
+									if kv, ok := fe.(*ast.KeyValueExpr); ok {
+										if kid, ok := kv.Key.(*ast.Ident); ok {
+											name = kid.Name
+										}
+										val = kv.Value
+									} else if fi < st.NumFields() {
+										name = st.Field(fi).Name()
+									}
+									if sv, ok := constStr(info, val); ok && name != "" {
+										m[vid.Name+"."+name] = sv
+									}
+								}
+								substs = append(substs, m)
+							}
+							if done && len(substs) > 0 {
+								saved := selSubst
+								for _, m := range substs {
+									selSubst = m
+									walk(x.Body.List, cond)
+								}
+								selSubst = saved
+								continue
+							}
+						}
+					}
+				}
 				// a loop that only counts (no emission) is irrelevant; one that emits is a multiplicity we do not model
 				emits := false
 				ast.Inspect(x.Body, func(m ast.Node) bool {
@@ -282,6 +329,29 @@ func portsOf(info *types.Info, fd *ast.FuncDecl, form string, siblings map[strin
 }
 
 func c18Ports(r *core.Run, prog *core.Program) {
+	for _, rel := range []string{"pkg/bondmachine", "pkg/procbuilder"} {
+		if pk := prog.Pkg(rel); pk != nil {
+			for _, f := range pk.Syntax {
+				for _, d := range f.Decls {
+					gd, ok := d.(*ast.GenDecl)
+					if !ok || gd.Tok != token.VAR {
+						continue
+					}
+					for _, sp := range gd.Specs {
+						vs, ok := sp.(*ast.ValueSpec)
+						if !ok || len(vs.Names) != len(vs.Values) {
+							continue
+						}
+						for k, n := range vs.Names {
+							if cl, ok := vs.Values[k].(*ast.CompositeLit); ok {
+								c18Tables[pk.TypesInfo.ObjectOf(n)] = cl
+							}
+						}
+					}
+				}
+			}
+		}
+	}
 	pb := prog.Pkg("pkg/procbuilder")
 	bm := prog.Pkg("pkg/bondmachine")
 	if pb == nil || bm == nil {
